@@ -449,6 +449,7 @@ fn cmd_check(args: &[String]) -> i32 {
         "wall_s": wall_s,
         "violations": violation_lines.len(),
     });
+    let _ = std::fs::create_dir_all(format!("{}/evidence", replay::verif_root()));
     let path = format!("{}/evidence/{prop}.json", replay::verif_root());
     if let Err(e) = std::fs::write(&path, serde_json::to_string_pretty(&ev).expect("json")) {
         eprintln!("HARNESS ERROR: cannot write evidence {path}: {e}");
